@@ -5,6 +5,7 @@
 From Coq Require Import ZArith List Bool.
 From BV Require Import Lib.Cases Model.LaxSem Model.Restart Model.Pool
      Proofs.PoolJobs Proofs.PoolInv Proofs.PoolTick Proofs.PoolCor.
+From BV Require Import Proofs.PoolRefuted.
 From BV Require Gen.G_pool_shape.
 From BV Require Import Proofs.PoolSup.
 Import ListNotations.
@@ -109,6 +110,33 @@ Theorem C04_drain_loop_reports_losses_like_a_pass : forall s,
     jobs (fst (do_join_shutdown s)) = jobs (fst (do_tick s)).
 Proof. exact join_shutdown_jobs. Qed.
 Print Assumptions C04_drain_loop_reports_losses_like_a_pass.
+
+(* ---- what the pinned tree does NOT satisfy (known findings, re-detected on every run from the
+   same histories in corpus/pool.json): each is refuted in the model by a concrete history *)
+Theorem C04_reported_for_every_kind_of_handle_refuted :
+  exists c tr j x lt st,
+    get_job (run c tr) j = Some x /\ kind x = KIMap /\ ready x = false
+    /\ worker_lost x = Some (lt, st) /\ lost_timeout x < now (run c tr) - lt
+    /\ last tr EJunk = ETick
+    /\ items x = [] /\ snd (step (run c tr) (ENext j)) = REmpty.
+Proof. exact imap_loss_not_delivered. Qed.
+Print Assumptions C04_reported_for_every_kind_of_handle_refuted.
+
+Theorem C04_finished_work_causes_no_failure_refuted :
+  exists c tr j x,
+    get_job (run c tr) j = Some x /\ kind x = KMap
+    /\ value x = Some (PLost EX_RECYCLE j) /\ cb_err x = 1.
+Proof. exact spurious_loss_finished_parts. Qed.
+Print Assumptions C04_finished_work_causes_no_failure_refuted.
+
+Theorem C04_no_later_than_one_period_refuted :
+  exists c tr j x p,
+    get_job (run c tr) j = Some x /\ kind x = KApply /\ wp x = [p]
+    /\ in_pool (run c tr) p = false /\ exited (run c tr) p = true
+    /\ ready x = false /\ worker_lost x = None
+    /\ last tr EJunk = ETick.
+Proof. exact owner_gone_but_no_marker. Qed.
+Print Assumptions C04_no_later_than_one_period_refuted.
 
 Example C04_witness :
   map (fun x => (ready x, value x, worker_lost x)) (jobs (run c04_cfg c04_tr))
